@@ -79,7 +79,7 @@ theorem memCoreOk_spec (e : Entry) (op : BitVec 32) (nimm : Nat) (h : memCoreOk 
 
 /-- the final opcode word of the _Lx classes of shape [reg, MEM(, imm)]: L from the register's size or-ed with the MEMORY operand's size -/
 def finalOpM (e : Entry) (lxEnc : Nat) (size : Nat) : BitVec 32 :=
-  if e.enc == lxEnc then e.mainOp ||| opcodeLBySize ((Op.reg (rtypeOf (e.kinds.getD 0 .none)) 0).rmSize ||| size) else e.mainOp
+  if e.enc == lxEnc || e.enc == 0x84 then e.mainOp ||| opcodeLBySize ((Op.reg (rtypeOf (e.kinds.getD 0 .none)) 0).rmSize ||| size) else e.mainOp
 
 def anyMemAlt (f : FormOp) : Bool := f.alts.any fun a => match a with | .mem (some _) .none => true | _ => false
 
@@ -136,7 +136,7 @@ def entryOkRmMem (e : Entry) : Bool :=
   match e.rule.ops, e.kinds with
   | [f0, f2], [k0, _] =>
     allMemAlts f2 (fun size =>
-      (e.enc == 0x68 || e.enc == 0x6B) && (memCoreOk e (finalOpM e 0x6B size) 0 &&
+      (e.enc == 0x68 || e.enc == 0x6B || e.enc == 0x83 || e.enc == 0x84) && (memCoreOk e (finalOpM e 0x6B size) 0 &&
       (f0.role == .reg && (f2.role == .rm && (plainKind k0 && (noFix f0 && formOpMatches e.rule.oszEff f0 (.reg k0 0)))))))
   | _, _ => false
 
